@@ -6,7 +6,9 @@ Case kinds
   act     one completion through a real generation *action* (FakeLLM serving it) vs the model's post-processing
   botmsg  generate_bot_message with predefined / context-variable / LLM branches, `_render_string` instrumented
   e2e     hostile completions at every LLM call position of multi-turn conversations through the real
-          `LLMRails.generate`, all generation modes (search territory: oracle only, no model)
+          `LLMRails.generate`, all generation modes (search territory: oracle only, no model); includes the
+          stored-then-quoted family: LLM text that is stored (last bot message, generated value, action result) and quoted
+          in a LATER step/turn by a predefined message (`$var`, `{{ var }}`), a `bot $var` step or a 2.x `bot say $v`
 Static tie: ast scan of both generation.py files for every call of a render function and the provenance of its argument.
 """
 import ast
@@ -17,6 +19,7 @@ import json
 import os
 import re
 import sys
+import warnings
 
 from ..impl import c17_env as E
 from ..translate.util import TieBroken, find_def, parse
@@ -27,17 +30,20 @@ EXHAUSTIVE = {"quick": False, "thorough": False}
 RULE = ("fn/act: structured completions (lines built from Colang/verbose prefixes, quotes, comments, separators incl. every Unicode "
         "line boundary and whitespace class, template/variable syntax, escape_flow_name keywords) plus a malformed stream over a "
         "hostile alphabet; e2e: every base conversation of every mode (dialog, single_call, multi_step, general, passthrough, "
-        "v2 intent/flow/value/utterance) with a hostile or mutated completion at each LLM call position. non-trivial = the text has "
+        "v2 intent/flow/value/utterance, and the stored-then-quoted conversations dialog_q/single_call_q/v2_quote) with a hostile or mutated completion at each LLM call position; "
+        "quote family: a marked payload of template/variable/escape tokens at the position whose text is stored and later quoted. non-trivial = the text has "
         ">= 2 lines or a recognised prefix/quote/template token (fn/act), or a hostile completion was actually consumed (e2e); "
         "distinct = distinct case JSON.")
 TRUSTED_BASE = [
     "correspondence harness harness/props/C17.py + harness/impl/c17_env.py (FakeLLM, fake embeddings, CPU watchdog) + Drive/C17.lean",
     "static tie: ast scan of actions/llm/generation.py and actions/v2_x/generation.py for render call sites",
     "CPython str methods are the reference for Py/Str.lean (whitespace and line-boundary tables compared exhaustively on every run)",
-    "literal_eval, Jinja2 (`_render_string`), the Colang parsers and both runtimes are not modelled: they are exercised end-to-end only",
+    "Jinja2, literal_eval, the Colang 1.0 parser and compute_next_steps are ORACLES of the models (any result, any exception); their real behaviour is observed by the differential tasks (parse spy, literal_eval classification, step table) and exercised end-to-end",
+    "dataflow translator harness/translate/c17.py: provenance roots by name, intra-procedural, closures = join of what their body reads",
 ]
 ASSUMPTIONS = [
-    "the theorems cover the text post-processing inside the generation actions and the dispatcher's containment; code outside actions that consumes LLM-derived text (v1 _process_start_flow, v2 AddFlowsAction + execution of generated flows) is search territory",
+    "the theorems cover the text post-processing inside the generation actions, the dispatcher's containment, the try/except structure of v1 _process_start_flow and the generate_events loop (parser / compute_next_steps as oracles) and the literal_eval wrapper of 2.x GenerateValueAction; v2 AddFlowsAction + the execution of generated flows, eval_expression and Jinja itself are search territory",
+    "multi_step_never_raises_repaired and generate_value_v2_total are about the REPAIRED code (fixes/C17-v1-flow-error-ends-turn.diff, fixes/C17-v2-generated-value-plain.diff); on the unpatched tree the as-is theorems are the partial ones and the differential accepts either behaviour inside the open findings' regions",
     "escape_flow_name's `\\b\\d+\\b` step is modelled for ASCII text only (non-ASCII strings are compared up to the replace chain by the oracle-only stream)",
     "completions longer than 4000 characters are only run end-to-end (the model driver recurses over List Char)",
 ]
@@ -235,6 +241,41 @@ def mutate(rng, s):
     return s
 
 
+def g_literal(rng, depth=0):
+    """text of a Python literal (what a cooperative LLM answers at a value-generation call), incl. the literals that are not
+    plain data (`...`, bytes, complex) and near-literals"""
+    r = rng.random()
+    if depth < 2 and r < 0.25:
+        items = [g_literal(rng, depth + 1) for _ in range(rng.choice([0, 1, 2, 3]))]
+        k = rng.choice(["list", "tuple", "set", "dict"])
+        if k == "list":
+            return "[" + ", ".join(items) + "]"
+        if k == "tuple":
+            return "(" + ", ".join(items) + ("," if len(items) == 1 else "") + ")"
+        if k == "set":
+            return "{" + ", ".join(items) + "}" if items else "set()"
+        return "{" + ", ".join(g_literal(rng, 2) + ": " + x for x in items) + "}"
+    if r < 0.55:
+        q = rng.choice(["\"", "'", "\"\"\""])
+        body = rng.choice(WORDS + TEMPLATES + ["", "a b", "it is", "\\n", "\\x41", "ZQX $secret QXZ"])
+        return q + body + q
+    if r < 0.8:
+        return rng.choice(["0", "42", "-7", "1.5", "1e3", "True", "False", "None", "0x1f", "1_000", "-0.0", "inf", "nan"])
+    return rng.choice(["...", "b'x'", "b\"\"", "1j", "2+3j", "Ellipsis", "[...]", "(1, ...)", "{1: ...}", "{...}", "1 + 1", "-x", "[1, 2", "{'a'}", "\"a\" \"b\"", "'a' + 'b'"])
+
+
+def g_value_text(rng):
+    t = g_literal(rng)
+    r = rng.random()
+    if r < 0.15:
+        t = t + ";"
+    elif r < 0.25:
+        t = "  " + t + "\n" + g_line(rng)
+    elif r < 0.32:
+        t = rng.choice(["$v = ", "v = ", "Answer: "]) + t
+    return t
+
+
 def g_text(rng):
     r = rng.random()
     if r < 0.55:
@@ -266,6 +307,7 @@ HOSTILE = [
     "  ask name\nbot $secret\n  \"x\"", "  ask name\nbot\n", "\n\n  ask name", "  ask name\n", "user ask name\nbot inform name", "  ask name\nbot inform name\n  \"" + msg_with_sentinel(SENT_EXPR + " $secret") + "\"",
     "User intent: ask name\nBot intent: inform name\nBot message: \"" + msg_with_sentinel("$secret") + "\"", "# c\n# d\n", "#\n  x\n#\n  y", "  x\n  x\n  x",
     "名前 😀", "\ud7ff\ue000", "é" * 30, "\u202ebot x", "bot x\x00y", "\x00", "\x1b[31m", "\r", "\r\nbot x\r\n", "bot x\u2028bot y", "\x85",
+    "b'x'", "1j", "(1, ...)", "{1: ...}", "[b'a', 2]", "\"ZQX \" + str(191*7) + \" QXZ\"", "str(191*7)", "f\"{191*7}\"",
     "A" * 100000, "bot " + "a " * 50000, "\n" * 20000, "  \"" + "{{ 1 }}" * 10000 + "\"", "bot a\n" * 3000, "((((" * 5000,
 ]
 
@@ -285,11 +327,69 @@ def base_conversations():
         ("v2_flowgen", ["tell me a joke", "another"], ["user asked for a joke", "bot intent: bot tell joke\nbot action: bot say \"Why?\"", "user asked again", "bot intent: bot tell another\nbot action: bot say \"Because.\""], [], "bot action: bot say \"fb\""),
         ("v2_value", ["I like trains", "ok"], ["\"trains\""], [0], "\"fb\""),
         ("v2_utter", ["tell me a joke", "more"], ["user intent: user asked for joke\nbot intent: bot tell joke\nbot action: bot say \"Why?\"", "user intent: user asked more\nbot intent: bot tell more\nbot action: bot say \"More.\""], [], "bot action: bot say \"fb\""),
-    ]
+    ] + [(mode, turns, script, [store], fb) for mode, turns, script, store, _wrap, fb in QUOTE_BASES]
+
+
+# ---- stored-then-quoted family ---------------------------------------------------------------------------------------------
+# (mode, user turns, cooperative completions, position whose text is STORED, wrapper of the payload at that position, fallback)
+QUOTE_BASES = [
+    # the LLM-written reply of turn 1 is quoted by `$last_bot_message` (turn 2), `{{ last_bot_message }}` (turn 3: a quote of the quote) and again
+    ("dialog_q", ["zzz", "can you repeat that", "once more", "can you repeat that"],
+     ["  ask something", "bot inform thing", "  \"It is fine.\"", "  ask to repeat", "  ask to repeat again", "  ask to repeat"], 2, "  \"%s\"", "  \"fb\""),
+    # a generated value quoted in the same turn (`$name`), then by `{{ last_bot_message }}` + `$name` in a later turn
+    ("dialog_q", ["my name is John", "recap", "can you repeat that"], ["  introduce self", "\"John\"", "  ask recap", "  ask to repeat"], 1, "\"%s\"", "\"fb\""),
+    ("dialog_q", ["my name is John", "once more"], ["  introduce self", "'John'", "  ask to repeat again"], 1, "'%s'", "\"fb\""),
+    # `bot $name`: the value is the whole message; quoted afterwards
+    ("dialog_q", ["say my name", "can you repeat that", "recap"], ["  ask raw name", "\"John\"", "  ask to repeat", "  ask recap"], 1, "\"%s\"", "\"fb\""),
+    # the result of an action that returns LLM text
+    ("dialog_q", ["look it up", "once more"], ["  ask lookup", "Lookup text.", "  ask to repeat again"], 1, "%s", "fb"),
+    ("single_call_q", ["zzz", "can you repeat that", "once more"],
+     ["  ask something\nbot inform thing\n  \"It is fine.\"", "  ask to repeat\nbot repeat last message\n  \"unused\"", "  ask to repeat again\nbot repeat last message again\n  \"unused\""],
+     0, "  ask something\nbot inform thing\n  \"%s\"", "  ask x\nbot y\n  \"fb\""),
+    ("single_call_q", ["my name is John", "recap"], ["  introduce self\nbot greet by name\n  \"unused\"", "\"John\"", "  ask recap\nbot recap\n  \"unused\""], 1, "\"%s\"", "\"fb\""),
+    ("v2_quote", ["a", "b", "c"], ["\"trains\""], 0, "\"%s\"", "\"fb\""),
+]
+QUOTE_TOKENS = [SENT_EXPR, "{{ 7*7 }}", "{{ secret }}", "{{secret}}", "{{ last_user_message }}", "{{ last_bot_message }}", "{{ name }}", "{% for x in y %}", "{% if 1 %}EVIL{% endif %}",
+                "{% raw %}", "{# c #}", "{{", "}}", "{%", "%}", "$secret", "$name", "$last_bot_message", "$other_var", "$x", "{$secret}", "{$x}", "${{secret}}", "${secret}", "$secret.x", "$lst[0]",
+                SENT_V2, "{$v}", "\\", "\\\\", "\\t", "\\x41", "\\u0041", "'", "it's", "`", "<b>", "&amp;", "%s", "%(x)s", "{}", "{0}", "#", "50%", "a_b"]
+QUOTE_WORDS = ["use", "or", "in a template", "hello", "x", "1337?", "é", "名前"]
+
+
+def g_payload(rng):
+    """a marked message text made of template / variable / escape tokens (no newline, no double quote: it must survive the
+    first-line and strip_quotes post-processing of every position unchanged, so that `literally` is decidable)"""
+    n = rng.choice([1, 1, 2, 2, 3, 4])
+    parts = []
+    for _ in range(n):
+        if rng.random() < 0.35:
+            parts.append(rng.choice(QUOTE_WORDS))
+        parts.append(rng.choice(QUOTE_TOKENS))
+    return MARK_L + " " + " ".join(parts) + " " + MARK_R
+
+
+def gen_quote(rng, n):
+    out = []
+    for i in range(n):
+        mode, turns, script, store, wrap, fb = QUOTE_BASES[i % len(QUOTE_BASES)]
+        resp = list(script)
+        payload = g_payload(rng)
+        if "'" in payload and wrap.startswith("'"):
+            wrap = "\"%s\""
+        resp[store] = wrap % payload
+        pos = [store]
+        if rng.random() < 0.15:
+            # a second hostile completion somewhere else in the same conversation
+            p2 = rng.randrange(len(script))
+            if p2 != store:
+                resp[p2] = rng.choice(HOSTILE[:120]) if rng.random() < 0.5 else mutate(rng, script[p2])
+                pos = sorted(pos + [p2])
+        out.append({"kind": "e2e", "mode": mode, "turns": turns, "llm": resp, "fallback": fb, "pos": pos, "msgpos": [store], "quote": True})
+    return out
 
 
 def gen_cases(rng, tier):
     n_fn, n_act, n_bot, n_e2e = (30000, 2000, 500, 300) if tier == "quick" else (200000, 16000, 4000, 4000)
+    n_quote = 160 if tier == "quick" else 2400
     cases = [{"kind": "ws"}]
     parsers = ["none", "none", "user_intent", "bot_intent", "bot_message", "verbose_v1"]
     for _ in range(n_fn):
@@ -300,11 +400,43 @@ def gen_cases(rng, tier):
     tasks = ["user_intent", "next_step", "bot_message", "general", "value", "single_call", "v2_user_intent", "v2_value",
              "ms_next_step", "ms_start_flow", "v2_from_instructions", "v2_from_name", "v2_continuation", "v2_intent_and_action", "v2_flow_nld"]
     for i in range(n_act):
-        cases.append({"kind": "act", "task": tasks[i % len(tasks)], "prompts": rng.choice(["instruct", "chat", "verbose"]), "s": rng.choice(HOSTILE) if rng.random() < 0.15 else g_text(rng)})
+        task = tasks[i % len(tasks)]
+        text = rng.choice(HOSTILE) if rng.random() < 0.15 else g_text(rng)
+        if task in ("value", "v2_value") and rng.random() < 0.6:
+            text = g_value_text(rng)  # (after the draws above: the stream of the other tasks is unchanged)
+        cases.append({"kind": "act", "task": task, "prompts": rng.choice(["instruct", "chat", "verbose"]), "s": text})
     for _ in range(n_bot):
         cases.append(g_botmsg(rng))
     cases.extend(gen_e2e(rng, n_e2e))
+    cases.extend(gen_quote(rng, n_quote))
+    for _ in range(n_act // 10):
+        # `_process_start_flow` with an INJECTED parser behaviour (the parser is an oracle: any exception, any list of flows)
+        fid = "dyn-" + UUID[:8]
+        inj = rng.choice([{"raise": rng.choice(["ValueError", "AssertionError", "KeyError", "IndexError", "TypeError", "RecursionError", "Exception", "AttributeError", "UnicodeDecodeError"])},
+                          {"flows": rng.choice([[], [fid], [fid], [fid, fid], ["other"], [fid, "other"], ["other", fid], [fid + " "], ["", fid]])}])
+        cases.append({"kind": "act", "task": "ms_start_flow", "prompts": "instruct", "s": rng.choice(["bot express greeting", "bot inform x\nbot y", g_line(rng)]), "inject": inj})
+    for _ in range(n_act // 10):
+        cases.append({"kind": "act", "task": "gen_events", "prompts": "instruct", "s": "", "script": g_step_script(rng)})
     return [c for c in cases if c["kind"] != "act" or len(c["s"]) <= 4000]
+
+
+def g_step_script(rng):
+    """behaviour of `_compute_next_steps` as a table keyed by len(events) - base: "raise" or the event types it returns"""
+    def outcome():
+        if rng.random() < 0.1:
+            return "raise"
+        return [rng.choice(["X", "X", "X", "Listen", "hide_prev_turn"]) for _ in range(rng.choice([0, 1, 1, 2, 3]))]
+    n = rng.choice([0, 1, 2, 3, 5, 8])
+    keys = sorted(rng.sample(range(12), n))
+    sc = {"base": rng.choice([1, 2, 3]), "table": [[k, outcome()] for k in keys],
+          "default": rng.choice(["raise", [], ["X"], ["X"], ["Listen"], ["X", "X", "X"], ["hide_prev_turn"], ["X", "Listen"]])}
+    if rng.random() < 0.35:
+        # a long run that ends (or not) right at the 100-event safety valve: the boundary of `len(new_events) > 100`
+        sc["default"] = rng.choice([["X"], ["X"], ["X", "X"], ["X", "X", "X"]])
+        sc["table"] = [[k, o] for k, o in sc["table"] if o != "raise" and "Listen" not in o and "hide_prev_turn" not in o and o != []]
+        for k in sorted(rng.sample(range(94, 106), rng.choice([1, 2, 3]))):
+            sc["table"].append([k, rng.choice([["Listen"], ["X", "Listen"], ["hide_prev_turn"], [], "raise"])])
+    return sc
 
 
 def g_botmsg(rng):
@@ -513,11 +645,29 @@ def act_impl(case):
                 finally:
                     G2.literal_eval = old
                     del tm.render_task_prompt
+                # second run with the real literal_eval: the wrapper's outcome and what literal_eval itself did on that text
+                if seen:
+                    try:
+                        with warnings.catch_warnings():
+                            warnings.simplefilter("ignore")
+                            lv = ast.literal_eval(seen[0])
+                        obs["lit"] = "plain" if _plain(lv) else "nonplain"
+                    except BaseException:  # noqa  (literal_eval can raise ValueError, SyntaxError, MemoryError, RecursionError, TypeError …)
+                        obs["lit"] = "raised"
+                    try:
+                        with warnings.catch_warnings():
+                            warnings.simplefilter("ignore")
+                            rv = _run(A.generate_value(state=app._verif_state, instructions="extract", events=[], var_name="v", llm=llm))
+                        obs["wrapper"] = "ok-plain" if _plain(rv) else "ok-nonplain"
+                    except Exception as e:  # noqa
+                        obs["wrapper"] = "invalid" if type(e) is Exception and str(e).startswith("Invalid LLM response") else "other:" + type(e).__name__
                 pr = cap.get("p")
                 if isinstance(pr, str):
                     obs["last_prompt_line"] = pr.strip().split("\n")[-1]
                 elif isinstance(pr, list) and pr and isinstance(pr[-1].get("content"), str):
                     obs["last_prompt_line"] = pr[-1]["content"].strip().split("\n")[-1]
+    if task == "gen_events":
+        obs.update(gen_events_impl(case))
     if task in ("ms_next_step", "ms_start_flow", "v2_from_instructions", "v2_from_name", "v2_continuation", "v2_intent_and_action", "v2_flow_nld"):
         with contextlib.redirect_stdout(io.StringIO()):
             obs.update(gen_impl(case, llm))
@@ -525,6 +675,17 @@ def act_impl(case):
 
 
 UUID = "abcdef0123456789abcdef"
+
+
+def _plain(v):
+    """a value a flow variable / the serialised state can hold: None, bool, numbers, str, and list/tuple/set/dict of those"""
+    if v is None or isinstance(v, (bool, int, float, str)):
+        return True
+    if isinstance(v, (list, tuple, set)):
+        return all(_plain(x) for x in v)
+    if isinstance(v, dict):
+        return all(_plain(k) and _plain(x) for k, x in v.items())
+    return False
 
 
 def _try_parse(content):
@@ -538,6 +699,41 @@ def _try_parse(content):
         return False
     except Exception:  # noqa
         return False
+
+
+def _canon_type(t):
+    return t if t in ("Listen", "hide_prev_turn", "BotIntent") else "X"
+
+
+def gen_events_impl(case):
+    """the real `RuntimeV1_0.generate_events` loop with `_compute_next_steps` replaced by the step table of the case"""
+    app = _app("v1", case["prompts"])
+    rt = app.runtime
+    sc = case["script"]
+    base = sc["base"]
+    table = {k: o for k, o in sc["table"]}
+
+    class Boom(Exception):
+        pass
+
+    async def scripted(events, processing_log):
+        o = table.get(len(events) - base, sc["default"])
+        if o == "raise":
+            raise Boom()
+        return [{"type": t} for t in o]
+
+    rt._compute_next_steps = scripted
+    try:
+        with contextlib.redirect_stdout(io.StringIO()):
+            res = _run(rt.generate_events([{"type": "X0"} for _ in range(base)]))
+        out = {"res": "ok", "events": [_canon_type(e.get("type")) for e in res]}
+    except Boom:
+        out = {"res": "raised"}
+    except Exception as e:  # noqa
+        out = {"res": "too_many"} if str(e) == "Too many events." else {"res": "other:" + type(e).__name__}
+    finally:
+        del rt._compute_next_steps
+    return {"parser": "none", "gen_events": out}
 
 
 def gen_impl(case, llm):
@@ -572,9 +768,19 @@ def gen_impl(case, llm):
         seen = {}
         orig = RT.parse_colang_file
 
+        inject = case.get("inject")
+
         def spy(filename, content, *a, **k):
             seen["src"] = content
-            r = orig(filename, content, *a, **k)
+            seen["calls"] = seen.get("calls", 0) + 1
+            if inject is not None:
+                if "raise" in inject:
+                    exc = {"UnicodeDecodeError": lambda: UnicodeDecodeError("utf-8", b"x", 0, 1, "injected")}.get(inject["raise"], lambda: getattr(__import__("builtins"), inject["raise"])("injected"))()
+                    raise exc
+                proto = orig("dynamic.co", content="define flow proto:\n  bot express greeting")["flows"][0]
+                r = {"flows": [dict(__import__("copy").deepcopy(proto), id=i) for i in inject["flows"]]}
+            else:
+                r = orig(filename, content, *a, **k)
             seen["flows"] = [f.get("id") for f in r.get("flows", [])]
             return r
 
@@ -594,6 +800,10 @@ def gen_impl(case, llm):
         obs["flow_id"] = fid
         obs["src"] = seen.get("src")
         obs["parses_flow"] = seen.get("flows") == [fid]
+        # the parser's observed behaviour, for the try/except model: ids it returned (None: it raised / did not return)
+        obs["parse_flows"] = seen.get("flows") if seen.get("calls") == 1 else None
+        if not all(isinstance(x, str) for x in (obs["parse_flows"] or [])):
+            obs["parse_flows"] = None
         return obs
     # ---- Colang 2.x
     import nemoguardrails.actions.v2_x.generation as G2
@@ -703,11 +913,16 @@ def model_requests(case, obs):
         return [{"m": "C17.all", "s": case["s"], "k": case["k"], "parser": "none"}]
     if k == "act":
         reqs = [{"m": "C17.all", "s": case["s"], "k": 2, "parser": obs.get("parser", "none")},
-                {"m": "C17.gen", "s": case["s"], "parser": obs.get("parser", "none"), "uuid": UUID[:8], "name": obs.get("name", "x"), "last_prompt_line": obs.get("last_prompt_line", "\x00none")}]
+                {"m": "C17.gen", "s": case["s"], "parser": obs.get("parser", "none"), "uuid": UUID[:8], "name": obs.get("name", "x"), "last_prompt_line": obs.get("last_prompt_line", "\x00none"), "lit": obs.get("lit", "raised")}]
         if case["task"] == "ms_next_step":
             reqs.append({"m": "C17.ms", "s": case["s"], "parser": obs.get("parser", "none"), "parses": obs["parses"]})
+        if case["task"] == "gen_events":
+            reqs.append({"m": "C17.genloop", "base": case["script"]["base"], "table": case["script"]["table"], "default": case["script"]["default"]})
         if case["task"] == "ms_start_flow" and obs.get("src") is not None:
-            reqs.append({"m": "C17.msflow", "flow_id": obs["flow_id"], "body": case["s"]})
+            rq = {"m": "C17.msflow", "flow_id": obs["flow_id"], "body": case["s"], "next_raised": "err" in obs["start_flow"] and obs["start_flow"]["err"] != "Hang" and obs.get("parse_flows") == [obs["flow_id"]]}
+            if obs.get("parse_flows") is not None:
+                rq["flows"] = obs["parse_flows"]
+            reqs.append(rq)
         return reqs
     if k == "botmsg":
         ctx = []
@@ -751,12 +966,26 @@ def compare(case, obs, mouts):
         for key in ("from_instructions", "from_name", "continuation", "from_nld", "value_v2", "user_intent_v2"):
             if key in obs and g.get(key) != obs[key]:
                 return f"{key}: implementation {obs[key]!r} model {g.get(key)!r} (parser {obs.get('parser', 'none')})"
+        if "wrapper" in obs:
+            # literal_eval is an oracle (observed: raised / plain / non-plain literal); the wrapper must behave like the model.
+            # Inside the region of the open finding (non-plain literal) the as-is code returns the value, the repaired code refuses it.
+            w, mw = obs["wrapper"], g["value_v2_wrapper"]
+            want = {"raised": ["invalid"], "plain": ["ok-plain"], "nonplain": ["ok-nonplain", "invalid"]}[obs["lit"]]
+            mwant = {"raised": "invalid", "plain": "ok", "nonplain": "invalid"}[obs["lit"]]
+            if w not in want or mw["repaired"] != mwant or (obs["lit"] != "nonplain" and mw["as_is"] != mw["repaired"]):
+                return f"GenerateValueAction wrapper: literal_eval {obs['lit']}, implementation {w}, model as-is {mw['as_is']} / repaired {mw['repaired']}"
         if "intent_and_action" in obs:
             v = obs["intent_and_action"]
             if not (isinstance(v, dict) and "err" in v) and g["intent_and_action"] != v:
                 return f"intent_and_action: implementation {v!r} model {g['intent_and_action']!r}"
             if isinstance(v, dict) and "err" in v:
                 return f"generate_user_intent_and_bot_action raised {v}, the model never does"
+        if "gen_events" in obs:
+            # generate_events loop: as-is model everywhere; where the as-is model raises (step raised / 100-event valve: the two
+            # open findings) the repaired behaviour is accepted as well
+            real, a, r = obs["gen_events"], mouts[2]["as_is"], mouts[2]["repaired"]
+            if real != a and not (a["res"] in ("raised", "too_many") and real == r):
+                return f"generate_events loop: implementation {real!r} model as-is {a!r} repaired {r!r}"
         if "ms" in obs:
             mm = mouts[2]
             if obs["ms"] != mm:
@@ -769,7 +998,12 @@ def compare(case, obs, mouts):
                 fallback = r["ok"] == [enc("BotIntent:general response")]
                 if fallback == bool(obs["parses_flow"]) and not (obs["parses_flow"] and fallback):
                     return f"_process_start_flow: parses_flow={obs['parses_flow']} but result {r['ok']}"
-        obs = {kk: vv for kk, vv in obs.items() if kk not in ("from_instructions", "from_name", "continuation", "from_nld", "value_v2", "user_intent_v2", "intent_and_action", "ms", "start_flow", "parses", "src", "flow_id", "parses_flow", "name", "last_prompt_line")}
+            # try/except structure (processStartFlowE): the model is driven with the parser's observed behaviour
+            if obs.get("src") is not None and r.get("err") != "Hang" and len(mouts) > 2 and "res" in mouts[2]:
+                real = "raised" if "err" in r else ("fallback" if r["ok"] == [enc("BotIntent:general response")] else "next")
+                if mouts[2]["res"] != real and not (real == "fallback" and mouts[2]["res"] == "next" and obs.get("parse_flows") == [obs["flow_id"]]):
+                    return f"_process_start_flow try/except: parser behaviour {obs.get('parse_flows')!r} (None = raised), implementation {real}, model {mouts[2]['res']}"
+        obs = {kk: vv for kk, vv in obs.items() if kk not in ("from_instructions", "from_name", "continuation", "from_nld", "value_v2", "user_intent_v2", "intent_and_action", "ms", "start_flow", "parses", "src", "flow_id", "parses_flow", "parse_flows", "name", "last_prompt_line", "lit", "wrapper", "gen_events")}
     if k in ("fn", "act"):
         for key, v in obs.items():
             if key in ("parser", "nonascii"):
@@ -831,6 +1065,39 @@ def _content_of(mode, reply):
     return isinstance(c, str), c if isinstance(c, str) else ""
 
 
+_SEG_RE = re.compile(re.escape(MARK_L) + r".*?" + re.escape(MARK_R), re.S)
+
+
+def _marked_segments(case):
+    want = set()
+    for x in case["llm"] + [case["fallback"]]:
+        if MARK_L not in x:
+            continue
+        cands = [x]
+        for y in [x.strip()] + [ln.strip() for ln in x.splitlines()]:
+            if y[:1] in ("\"", "'"):
+                try:
+                    with warnings.catch_warnings():
+                        warnings.simplefilter("ignore")
+                        v = ast.literal_eval(y)
+                    if isinstance(v, str):
+                        cands.append(v)
+                except Exception:  # noqa
+                    pass
+        for c in cands:
+            want.update(_SEG_RE.findall(c))
+    return want
+
+
+def _quoted_part(text):
+    """the part of a reply of the quote configuration that stands for `last_bot_message` (None: not such a reply)"""
+    if text.startswith(E.QUOTE_PREFIX):
+        return text[len(E.QUOTE_PREFIX):]
+    if text.startswith(E.QUOTE2_PREFIX) and text.endswith(E.QUOTE2_SUFFIX) and len(text) >= len(E.QUOTE2_PREFIX) + len(E.QUOTE2_SUFFIX):
+        return text[len(E.QUOTE2_PREFIX): len(text) - len(E.QUOTE2_SUFFIX)]
+    return None
+
+
 def _has_sentinel_syntax(case):
     return any(any(t in x for t in (SENT_EXPR, "secret", "191*7")) for x in case["llm"] + [case["fallback"]])
 
@@ -882,16 +1149,26 @@ def oracle(case, obs):
                 return f"evaluated:turn {t}: template/interpolation expression (191*7) from an LLM completion was evaluated: reply {text[:200]!r}"
             if E.SECRET in text:
                 return f"evaluated:turn {t}: variable syntax from an LLM completion was dereferenced: the reply contains the value of $secret: {text[:200]!r}"
-        # literal pass-through of marked message text
+        # literal pass-through of marked message text: EVERY marked segment of the reply is a marked segment of an LLM completion
+        # (as written, or as the Python string literal it denotes: generated values go through literal_eval)
         if MARK_L in text:
-            seg = text[text.index(MARK_L): text.index(MARK_R) + len(MARK_R)] if MARK_R in text[text.index(MARK_L):] else None
-            srcs = [x for x in case["llm"] + [case["fallback"]] if MARK_L in x]
-            want = set()
-            for x in srcs:
-                for mm in re.finditer(re.escape(MARK_L) + r".*?" + re.escape(MARK_R), x, re.S):
-                    want.add(mm.group(0))
-            if want and seg not in want:
-                return f"rewritten:turn {t}: marked LLM message text came back altered: {seg!r} not in {sorted(want)!r}"
+            want = _marked_segments(case)
+            segs = _SEG_RE.findall(text)
+            if want and not segs:
+                return f"rewritten:turn {t}: marked LLM message text came back altered: {None!r} not in {sorted(want)!r}"
+            for seg in segs:
+                if want and seg not in want:
+                    return f"rewritten:turn {t}: marked LLM message text came back altered: {seg!r} not in {sorted(want)!r}"
+        # stored-then-quoted: a predefined message that quotes `last_bot_message` shows the previous reply literally
+        if mode in ("dialog_q", "single_call_q") and t >= 1 and isinstance(text, str):
+            q = _quoted_part(text)
+            prev = _content_of(mode, obs["turns"][t - 1]["reply"])[1] if "reply" in obs["turns"][t - 1] else None
+            if q is not None and isinstance(prev, str) and prev != "":
+                # every bot utterance goes through the documented cleaning `\\n` -> newline (not template / variable syntax): compare modulo it
+                prev_c, q_c = prev.replace("\\n", "\n"), q.replace("\\n", "\n")
+                tails = {prev_c} | {prev_c[i + 1:] for i, ch in enumerate(prev_c) if ch == "\n"}
+                if q_c not in tails:
+                    return f"rewritten:turn {t}: the predefined message quotes the previous bot message, but not literally: quoted {q[:160]!r}, previous reply {prev[:160]!r}"
     return None
 
 
@@ -901,6 +1178,8 @@ def signature(case, obs, msg):
         return (msg or "").split(":")[0] + ":" + k if msg else None
     mode = case["mode"]
     cls = (msg or "").split(":")[0]
+    if cls in ("escape", "hang") and mode == "v2_quote":
+        mode = "v2_value"  # the same GenerateValueAction conversation family: one class of failing inputs
     if cls in ("escape", "hang"):
         for rec in obs["turns"]:
             if rec.get("hang") or "raised" in rec:
@@ -913,21 +1192,49 @@ def signature(case, obs, msg):
                     return f"{cls}:{mode}:generate_events:too-many-events"
                 return f"{cls}:{mode}:{rec.get('where', '?')}:{rec.get('exc_type', 'hang')}"
         return f"{cls}:{mode}:?"
+    bad = _bad_turn_text(case, obs, msg)
     if cls == "evaluated":
-        if mode in ("dialog", "single_call", "multi_step") and "$secret" in (msg or "") and any(re.search(r"(^|\n)\s*(bot|Bot intent:)\s+\$secret", x) for x in case["llm"] + [case["fallback"]]):
+        # known: the LLM predicted the bot INTENT `$secret`; generate_bot_message answers with the variable's value - the whole
+        # message is that value.  Anything else that makes the secret / 1337 appear (a quote, a rendered template) is a new class.
+        if (mode in ("dialog", "single_call", "multi_step", "dialog_q", "single_call_q") and "$secret" in (msg or "") and bad is not None and bad.strip() == E.SECRET
+                and any(re.search(r"(^|\n)\s*(bot|Bot intent:)\s+\$secret", x) for x in case["llm"] + [case["fallback"]])):
             return "evaluated:v1:llm-bot-intent-context-var"
         if mode in ("v2_flowgen", "v2_utter", "v2_intent"):
             return "evaluated:v2:generated-flow-interpolation"
         return f"evaluated:{mode}"
     if cls == "rewritten":
-        if mode.startswith("v2"):
-            return "rewritten:v2:interpolation-of-llm-text"
+        if mode in ("v2_flowgen", "v2_utter", "v2_intent"):
+            return "rewritten:v2:interpolation-of-llm-text"  # the LLM wrote the flow: its text is a string literal of Colang source
+        if mode in ("v2_value", "v2_quote"):
+            # known: the flow author interpolates a generated value (`"got: {$v}"`, `"again: {$v}"`) and eval_expression re-reads it.
+            # A generated value uttered without interpolation (`bot say $v`) must come back literally: a different class.
+            if bad is not None and any(ln.startswith(pre) for ln in bad.split("\n") for pre in V2_INTERPOLATION_PREFIXES if MARK_L in ln):
+                return "rewritten:v2:interpolation-of-llm-text"
+            return f"rewritten:{mode}:not-interpolated"
         return f"rewritten:{mode}"
     return f"{cls}:{mode}"
 
 
+V2_INTERPOLATION_PREFIXES = ["got: ", "again: "]
+
+
+def _bad_turn_text(case, obs, msg):
+    """text of the reply of the turn the oracle message names"""
+    m = re.match(r"\w+:turn (\d+):", msg or "")
+    if not m:
+        return None
+    t = int(m.group(1))
+    if t < len(obs.get("turns", [])) and "reply" in obs["turns"][t]:
+        return _content_of(case["mode"], obs["turns"][t]["reply"])[1]
+    return None
+
+
 def nontrivial(case, obs):
     k = case["kind"]
+    if k == "act" and case.get("task") == "gen_events":
+        return bool(case["script"]["table"]) or case["script"]["default"] != ["Listen"]
+    if k == "act" and case.get("inject") is not None:
+        return True
     if k in ("fn", "act", "botmsg"):
         s = case["s"]
         return "\n" in s or any(p.strip() and p in s for p in PREFIXES) or any(t in s for t in TEMPLATES) or "\"" in s
@@ -952,6 +1259,12 @@ def tags(case, obs):
     elif k == "act":
         t.append("task:" + case["task"])
         t.append("parser:" + obs.get("parser", "?"))
+        if "wrapper" in obs:
+            t.append("literal_eval:" + obs["lit"] + "->" + obs["wrapper"])
+        if "gen_events" in obs:
+            t.append("gen_events:" + obs["gen_events"]["res"])
+        if case.get("inject") is not None:
+            t.append("parser-injected:" + ("raise" if "raise" in case["inject"] else "flows" + str(len(case["inject"]["flows"]))))
         for key, v in obs.items():
             if isinstance(v, dict) and "err" in v:
                 t.append(f"{key}:err:{v['err']}")
@@ -969,6 +1282,10 @@ def tags(case, obs):
             else:
                 ok, text = _content_of(case["mode"], rec["reply"])
                 t.append("reply:" + ("internal-error" if FIXED_REPLIES[0] in text else "not-sure" if FIXED_REPLIES[1] in text else "silent" if text == "" else "text"))
+                if case["mode"] in ("dialog_q", "single_call_q") and _quoted_part(text) is not None:
+                    t.append("quoted:last_bot_message" + (":marked" if MARK_L in text else ""))
+                elif case.get("quote") and MARK_L in text:
+                    t.append("quoted:marked-text-in-reply")
     return t
 
 
@@ -1007,4 +1324,5 @@ def escalate(rng, focus, tier):
                 cases.append({"kind": "e2e", "mode": mode, "turns": turns, "llm": resp, "fallback": fb, "pos": [pos], "msgpos": msgpos})
     for _ in range(n):
         cases.append(g_botmsg(rng))
+    cases = gen_quote(rng, n // 2) + cases
     return cases
